@@ -8,7 +8,9 @@ import (
 	"bytes"
 	"encoding/json"
 	"fmt"
+	"github.com/cloudwego/hertz/pkg/app"
 	"github.com/cloudwego/hertz/pkg/protocol"
+	"io"
 	"strings"
 	"sync/atomic"
 
@@ -256,6 +258,26 @@ type worker struct {
 
 func newWorker() *worker {
 	w := &worker{buf: srvh.New(srvh.Opts{}), str: srvh.New(srvh.Opts{Streaming: true})}
+	// the streaming handler reads with changing buffer sizes (the second read spans the end of the 8 KiB the server
+	// prefetches; aligned and 1-byte-granular reads follow)
+	w.str.BodyReader = func(ctx *app.RequestContext, r io.Reader, sn *srvh.Seen) {
+		sizes := []int{5000, 4096, 7, 16384}
+		buf := make([]byte, 16384)
+		for i := 0; ; i++ {
+			n, err := r.Read(buf[:sizes[i%len(sizes)]])
+			sn.Body = append(sn.Body, buf[:n]...)
+			if err != nil {
+				if err != io.EOF {
+					sn.BodyErr = err.Error()
+				}
+				return
+			}
+			if len(sn.Body) > 1<<24 || i > 1<<20 {
+				sn.BodyErr = "harness: body over 16 MiB, giving up"
+				return
+			}
+		}
+	}
 	for _, s := range []*srvh.Server{w.buf, w.str} {
 		s.E.ContinueHandler = func(h *protocol.RequestHeader) bool { return len(h.Peek("X-Decline")) == 0 }
 		s.EchoAll()
@@ -421,6 +443,13 @@ func reduced() []wire.Spec {
 		with(S("GET", wire.FNone, 0), func(s *wire.Spec) { s.Extra = wire.XTabOWS }),
 		with(S("POST", wire.FCL, 5), func(s *wire.Spec) { s.Extra = wire.XFoldColon }),
 		with(S("POST", wire.FCL, 5), func(s *wire.Spec) { s.TabFraming = true }),
+		// the framing value starts on a continuation line, every indentation of up to three blanks
+		with(S("POST", wire.FCL, 5), func(s *wire.Spec) { s.FoldFraming = 1 }),
+		with(S("POST", wire.FCL, 5), func(s *wire.Spec) { s.FoldFraming = 2 }),
+		with(S("POST", wire.FCL, 5), func(s *wire.Spec) { s.FoldFraming = 3 }),
+		with(S("POST", wire.FCL, 5), func(s *wire.Spec) { s.FoldFraming = 4 }),
+		with(S("POST", wire.FCL, 5), func(s *wire.Spec) { s.FoldFraming = 7 }),
+		with(S("POST", wire.FChunked, 5), func(s *wire.Spec) { s.FoldFraming = 3 }),
 		with(S("POST", wire.FChunked, 5), func(s *wire.Spec) { s.TabFraming = true }),
 		with(S("POST", wire.FChunked, 5), func(s *wire.Spec) { s.LongChunkSize = true }),
 		with(S("POST", wire.FCLExpect, 5), func(s *wire.Spec) { s.Decline = true }),
